@@ -52,6 +52,11 @@ def main():
                 rec["steps"] = r["steps"]
             v = r["violation"]
             if v:
+                # immediate re-run of the same seed: a violation that does not come back points at
+                # nondeterminism (in the system under test or in the harness) and is reported as such
+                r_again = run_cfg(cfg)
+                v2 = r_again["violation"]
+                rec["reproducible"] = bool(v2) and (v2["property"], v2["oracle"], v2["step"]) == (v["property"], v["oracle"], v["step"])
                 rec["violation"] = v
                 rec["known"] = match_finding(findings, v)
                 rec["cfg"] = r["cfg"]
